@@ -827,7 +827,8 @@ class Extractor(object):
                 tgt = self.inliner(func, args, kws)
                 if tgt is not None:
                     fn_node, binding, label = tgt
-                    sub = Extractor(fn_node, inliner=self.inliner, parent=self, init_env=binding, depth=self.depth + 1)
+                    sub = Extractor(fn_node, const_resolver=self.const_resolver, inliner=self.inliner, parent=self, init_env=binding,
+                                    depth=self.depth + 1)
                     root = self
                     while root.parent is not None:
                         root = root.parent
@@ -1013,6 +1014,19 @@ class Extractor(object):
                 if any(r[0] == "starred" for r in rows) or len(rows) > 12 or not rows:
                     return None
                 return rows
+            return None
+        if lit is None and isinstance(node, ast.Name) and kind is None and node.id not in env and node.id not in self.local_names \
+                and self.const_resolver is not None and node.id.startswith("_"):
+            # a private module-level table (introduced to drive a loop): its rows written out
+            v = self.const_resolver(node.id)
+
+            def simple(x):
+                return isinstance(x, (str, int, float, bool, type(None))) or (isinstance(x, tuple) and all(simple(y) for y in x))
+
+            def term(x):
+                return ("tuple", tuple(term(y) for y in x)) if isinstance(x, tuple) else ("const", x)
+            if isinstance(v, (list, tuple)) and 0 < len(v) <= 12 and all(simple(x) for x in v):
+                return [term(x) for x in v]
             return None
         if lit is None:
             return None
@@ -1319,8 +1333,8 @@ class Extractor(object):
         return True, env, ()
 
 
-def extract(func_node, inliner=None):
-    return Extractor(func_node, inliner=inliner)
+def extract(func_node, inliner=None, const_resolver=None):
+    return Extractor(func_node, inliner=inliner, const_resolver=const_resolver)
 
 
 # ---- guard helpers -------------------------------------------------------------------------------------
